@@ -28,7 +28,7 @@ import pathlib
 import textwrap
 
 from ujvc.core import EngineSignal
-from ujvc.units import get, unit
+from ujvc.units import base_env, get, unit
 
 REL = "stores/_file_store.py"
 STORES = {
@@ -50,6 +50,10 @@ class FaultSer(TypeError):
 
 class BlockError(Exception):
     """exception raised by the caller's with-block"""
+
+
+class Interrupt(BaseException):
+    """a failure that is not an Exception (KeyboardInterrupt, SystemExit raised while writing)"""
 
 
 class File:
@@ -188,7 +192,9 @@ class Handle:
 
 def dump_stub(gfs, name):
     def dump(value, f, **kw):
-        o = gfs.outcome(3, name)
+        o = gfs.outcome(4, name)
+        if o == 3:
+            raise Interrupt("interrupted while serialising")
         if o == 1:
             raise FaultSer("unserialisable value")
         f.write((name, "A", id(value)))
@@ -214,14 +220,15 @@ def fs_env(gfs):
     class _pickle:
         dump = staticmethod(dump_stub(gfs, "pickle.dump"))
 
-    env = {
+    env = base_env(REL)
+    env.update({
         "open": gfs.open,
         "os": _os,
         "pathlib": pathlib,
         "contextmanager": contextlib.contextmanager,
         "json": _json,
         "pickle": _pickle,
-    }
+    })
     for q in ("_try_remove", "staged_write_path", "staged_write"):
         get(REL, q).compile_into(env)
     return env
@@ -249,7 +256,7 @@ def _final_checks(ctx, gfs, raised, expect_chunks=None, prefix=""):
 
 def _setup(ctx):
     pk = ctx.choose(2, "path-kind")
-    target = "/d/target" if pk == 0 else pathlib.Path("/d/target")
+    target = "/d/target.json" if pk == 0 else pathlib.Path("/d/target.json")
     with_old = ctx.choose(2, "old-exists") == 0
     stale = ctx.choose(2, "stale-staging") == 1
     return target, GhostFS(ctx, target, with_old, stale)
@@ -271,7 +278,9 @@ def staged_write_path_unit(ctx):
     try:
         with env["staged_write_path"](target) as sp:
             ctx.check("yields-staging-path", bool(str(sp) == gfs.staging and type(sp) is type(target)))
-            b = ctx.choose(3, "block")
+            b = ctx.choose(4, "block")
+            if b == 3:
+                raise Interrupt()
             if b == 0:  # block writes a complete file
                 with gfs.open(sp, "w") as h:
                     h.write("payload")
@@ -306,10 +315,12 @@ def staged_write_unit(ctx):
     try:
         with env["staged_write"](target, mode) as f:
             ctx.check("opens-staging-path-not-target", bool(gfs.open_log and gfs.open_log[-1][0] == gfs.staging))
-            b = ctx.choose(2, "block")
+            b = ctx.choose(3, "block")
             f.write("payload")
             if b == 1:
                 raise BlockError()
+            if b == 2:
+                raise Interrupt()
     except EngineSignal:
         raise
     except BaseException as e:
@@ -469,6 +480,18 @@ REPLAY_SCRIPT = textwrap.dedent(
                     if err is None: bad.append((cls.__name__, mk.__name__, fault, "fault swallowed")); continue
                     if snap.get("t") != b"OLD" or os.stat(t).st_mtime_ns != m0 or "t.STAGING" in snap:
                         bad.append((cls.__name__, mk.__name__, "injected %s error -> target changed or staging left" % fault, snap))
+    # a failure that is not an Exception (KeyboardInterrupt / SystemExit while writing) must clean up as well
+    for mk in (str, pathlib.Path):
+        for exc in (KeyboardInterrupt, SystemExit):
+            with tempfile.TemporaryDirectory() as d:
+                t = os.path.join(d, "t.txt"); open(t, "wb").write(b"OLD")
+                try:
+                    with staged_write(mk(t), "w") as f:
+                        f.write("partial"); raise exc()
+                except BaseException as e: err = e
+                snap = snapshot(d)
+                if snap.get("t.txt") != b"OLD" or len(snap) != 1:
+                    bad.append(("staged_write", mk.__name__, "%s inside the block -> %s" % (exc.__name__, sorted(snap))))
     for b in bad[:6]: print("C11 violated:", b)
     sys.exit(1 if bad else 0)
     '''
